@@ -12,15 +12,15 @@ import (
 
 // Wire is one message in flight or archived.
 type Wire struct {
-	ID      int
-	From    int
-	To      int
-	Bytes   []byte
-	Genuine bool   // produced by a real party and not modified since
-	Parent  int    // ID of the wire this one was derived from (dup/mutate), or -1
-	Call    int    // call sequence number that produced it (genuine) or -1
-	Note    string // attacker's description
-	Epoch   int    // sender's session epoch when produced (maintained by properties that need it)
+	ID          int
+	From        int
+	To          int
+	Bytes       []byte
+	Genuine     bool   // produced by a real party and not modified since
+	Parent      int    // ID of the wire this one was derived from (dup/mutate), or -1
+	Call        int    // call sequence number that produced it (genuine) or -1
+	Note        string // attacker's description
+	Epoch       int    // sender's session epoch when produced (maintained by properties that need it)
 	AuthChanged bool   // attacker changed the authenticated range / MAC / made it unparsable
 	Class       string // attacker's mutation class
 	Origin      int    // ID of the genuine wire this one derives from (-1: none / itself genuine)
@@ -28,24 +28,24 @@ type Wire struct {
 }
 
 type World struct {
-	Seed  uint64
-	P     []*Party
-	Links [][][]*Wire // [from][to]
-	Arch  []*Wire     // every wire message ever produced or crafted
-	Seq   int
-	Last  *CallResult
+	Seed    uint64
+	P       []*Party
+	Links   [][][]*Wire // [from][to]
+	Arch    []*Wire     // every wire message ever produced or crafted
+	Seq     int
+	Last    *CallResult
 	CurWire *Wire // wire being delivered right now (visible to observers)
 
-	logH    hash.Hash
-	LogKeep bool
+	logH     hash.Hash
+	LogKeep  bool
 	LogLines []string
 
-	Observers []func(p *Party, r *CallResult)
-	Faults    map[string]int // fault kind -> times it actually fired
-	EvCount   map[string]int // event kind:name -> count over the run
-	Panics    int
-	SimTime   time.Duration
-	nextWire  int
+	Observers  []func(p *Party, r *CallResult)
+	Faults     map[string]int // fault kind -> times it actually fired
+	EvCount    map[string]int // event kind:name -> count over the run
+	Panics     int
+	SimTime    time.Duration
+	nextWire   int
 	Deliveries int
 
 	// delivered plaintexts per receiving party, in order
